@@ -15,6 +15,8 @@ CONSTANTS
   EvictingLookup = FALSE
   HonourContext = FALSE
   RejectSeenIds = TRUE
+  RegisterBeforeExistsCheck = FALSE
+  MaxDup = 0
   Emit = FALSE
   Only = "all"
 INIT Init
